@@ -355,9 +355,20 @@ fn eval_case(c: &IoCase, model: &Model, work: &str, uid: &str) -> Option<Fail> {
     let bytes = serialise(c);
     let gz = c.container != "plain";
     let path = format!("{}/in_{}{}{}", work, uid, c.suffix, if gz { ".gz" } else { "" });
-    write_container(&path, &bytes, &c.container);
+    // every third case: the bytes sit in a file with an unrelated name, the reader is given a symbolic link that carries the
+    // suffix (the name that was passed decides format and compression)
+    let store = format!("{}/store_{}.dat", work, uid);
+    let ln = stale_case(&format!("ln {}", c.req())) && c.recs.len() % 3 != 0;
+    let _ = std::fs::remove_file(&path);
+    if ln {
+        write_container(&store, &bytes, &c.container);
+        let _ = std::os::unix::fs::symlink(&store, &path);
+    } else {
+        write_container(&path, &bytes, &c.container);
+    }
     let imp = read_impl(&path);
     let _ = std::fs::remove_file(&path);
+    let _ = std::fs::remove_file(&store);
     let exp = expected(c);
     let fmtname = if c.fastq { "fastq" } else { "fasta" };
     let reqs = vec![
